@@ -19,6 +19,8 @@ const setPkg = "github.com/emirpasic/gods/v2/sets/linkedhashset"
 func checkC19(c *chk.Ctx) {
 	h := newH(c)
 	c.Decided = []string{
+		"R19h successive swaps of one round see each other: the selected set of a swap is computed from state the previous proposal updated",
+		"R19g the policies of the selection contexts are only copied from the namespace configuration",
 		"R19f the selection context never changes the candidate set it was handed in place (the balancer shares one set across all swaps of a round and reads it to tell deleted servers from live ones)",
 		"R19a the ensemble selector only succeeds when the number of distinct selected ids equals the replication factor, and returns exactly the ids it added to the selected set",
 		"R19b the candidate set only shrinks: it is reassigned to Candidates - selected or to the anti-affinity filter's result; the load selector returns only members of the candidate set, the final selector an element of it",
@@ -36,6 +38,8 @@ func checkC19(c *chk.Ctx) {
 	ruleR19d(h)
 	ruleR19e(h)
 	ruleR19f(h)
+	rulePoliciesOnlyFromConfig(h, "R19g")
+	ruleSwapSelectedFromCurrentView(h, "R19h")
 }
 
 func isSetMethod(c *ssa.CallCommon, name string) bool {
